@@ -40,6 +40,7 @@ func runC13(c *Ctx) {
 	c12Cbuf(c)
 	c12Writer(c)
 	c12Helpers(c)
+	c12HelperSiblings(c)
 	c18Flate(c)
 	// RSV1 on a later fragment of a message that is being skipped surfaces from Discard
 	readerDiscardRules(c, "C13")
